@@ -15,6 +15,9 @@ BUDGET = {
     "C07": B(1500, 15000),
     "C08": B(1500, 15000),
     "C20": B(1500, 15000),
+    "C05": B(800, 12000),
+    "C10": B(1500, 20000),
+    "C16": B(800, 12000),
 }
 
 SCHED = ("Each case is a small concurrent program plus a schedule: the executor interposes the pthread API, runs exactly one thread at a time "
@@ -32,6 +35,22 @@ RULE = {
     "C03": SCHED + "Programs as C01 plus an ordering shape (a holder, then requests issued one by one, each only after the previous requester is parked). "
            "Oracle over the event log: for requests X, Y with PARK(X) < CALL(Y), not both reads: RET(X) < RET(Y). Non-trivial = at least one such ordered pair "
            "and two threads parked at once.",
+    "C05": "rapidcheck generates histories (<=80 ops quick, <=160 thorough) on one Subject<Args...> for five argument signatures: subscribe (callable / callable taking "
+           "SelfView / unique_ptr observer), handle.unsubscribe, subject.unsubscribe (valid, stale and foreign handles), mute/unmute, invalidate, self-invalidation on the next "
+           "call, handle move construction/assignment, notify with generated values. Oracle: ordered reference model (id, muted, valid); after each notify the call log equals "
+           "the model's (each subscribed, valid, unmuted observer once, subscription order, exact argument values); handle validity/mute state; stale/foreign handles rejected "
+           "with std::invalid_argument; each observer's callable (sentinel-counted) is alive exactly while the model holds the observer; ASan. "
+           "Non-trivial = a notify with >=3 subscribed observers of which >=1 is muted/invalid or an earlier observer was removed. Distinct = distinct case text.",
+    "C10": "rapidcheck generates callback scripts for up to 8 observers of one Subject<int> (1-6 subscribed initially): actions {subscribe a new scripted observer, unsubscribe "
+           "target (self, earlier, later), mute/unmute target, invalidate target/self, nested notify while depth<3}, each firing once when its owner is invoked at the action's "
+           "depth; then 1-4 top-level notifies. Oracle: reference simulation of the rounds as the property words them (membership fixed at entry, removed-before-turn skipped, "
+           "muted/invalid not invoked, invalid leave after their turn, newcomers first run in the next round); call logs (observer, depth, argument) must be equal; ASan decides "
+           "memory safety. Non-trivial = a callback removed a not-yet-called member or itself, or subscribed during a round that was followed by another notify. Distinct = distinct case text.",
+    "C16": "rapidcheck generates histories (<=60 ops quick, <=120 thorough) on Observable<long>, Observable<double, NearEq(eps in {1e-9,0.01,0.5,2.5})> and Observable<std::string>: "
+           "= (lvalue, temporary, moved), =current value, +=, -=, *=, /=, ++x, x++, --x, x--, apply(set|add|no-op), subscribe (T&, const T&, by-value subscribers), unsubscribe. "
+           "Oracle: model value computed with the same arithmetic; per op and live subscriber exactly one notification carrying the post-op value iff !eq(old,new) (always for ++/--), "
+           "none otherwise; Eq-equal assignment leaves value() bit-identical; pre/post increment return values. Non-trivial = a history with a changing and a non-changing op while "
+           ">=2 subscribers are live. Distinct = distinct case text.",
     "C07": SCHED + "Programs: one owner thread over one ThreadPool with non-expiring workers (max 1-4 threads, thorough 1-6): start(new Task), start(functor, lvalue), "
            "clear(), drain (wait until every submitted task has run or was destroyed), stop(), restart, getters; always ending in stop(). Tasks log run entry/exit "
            "and destruction with the executing thread and yield inside run(). Oracle per task: run <= 1, destroyed exactly once and never before/during its run, "
@@ -63,6 +82,9 @@ VS = ["controlled scheduler: pre-emption only at synchronisation operations, thr
       "glibc pthread primitives are modelled by the scheduler (mutex owner table, condvar waiter lists), not executed"]
 
 ASSUMPTIONS = {
+    "C05": ["handles are used only after isValid(), as every real caller does", "handle validity between an invalidation and the lazy removal at the next notify is left open"],
+    "C10": ["callbacks never touch their captures after an action that may destroy their observer", "every observer index is subscribed at most once per case"],
+    "C16": ["model uses the same C++ arithmetic; values bounded (no signed overflow, no division by zero)"],
     "C07": VS + ["non-expiring workers (setExpiryTimeout(-1)) and a single owner thread, as quantified"], "C08": VS + ["non-expiring workers, single owner thread"],
     "C20": VS + ["argument lvalues outlive the thread"],
     "C01": VS, "C02": VS + ["critical sections only yield, they never wait for anything else"], "C03": VS, "C12": VS,
